@@ -99,6 +99,65 @@ CLAIMS = {
              "rejection of out-of-range indices are recorded and re-computed by TLC.",
         note="Stored values are small integers; generated-feature sources come from the descriptors the dataset reports; the gradient "
              "generator is not covered; ASan/UBSan build for the never-read clause."),
+    "C02": dict(
+        category="exploration", design_ref="DESIGN.md §3 C02, appendix D",
+        technique="TLC model checking of SolverLoop.tla + TLC validation of solver runs recorded through a counting wrapper (MinimizerTrace.tla)",
+        text="TLC explores the outer loops of the line-search and best-state solver families against all evaluation-outcome sequences "
+             "(status lives in the returned state, cstate/pstate hand-over, strict-decrease tracking). Runs of all 35 registered solvers on "
+             "registered (1..32 dims) and random quadratic / max-of-linear objectives with random x0, epsilon, budgets 10..5000 and "
+             "parameters drawn from their domains are recorded through a driver-owned counting function; TLC evaluates on every run: value "
+             "and gradient are those of one recorded evaluation (bit-equal), status set, reported counts never above the performed ones (at "
+             "every logger line), finiteness, no-worse-than-start, budget overshoot <= 1100 + 8n.",
+        note="Observation of sampled runs (exploration), not a proof over all inputs; bit-equality, finiteness and the CG_DESCENT allowance "
+             "are computed by the driver from the wrapper's records; termination = watchdog; constrained solvers: see C05."),
+    "C01": dict(
+        category="exploration", design_ref="DESIGN.md §3 C01",
+        technique="TLC model checking of SolverLoop.tla (ls family) + TLC validation of line-search solver runs (MinimizerTrace.tla: ConvergedIsTruthful, QuadraticSolved)",
+        text="At design level TLC shows `converged` can only be stored in a state whose own evaluation passed the gradient test. All 17 "
+             "line-search solvers x 4 lsearch0 x 5 lsearchk x (c1,c2) x epsilon 1e-12..1e-2 on the registered smooth functions are run "
+             "through the counting wrapper: `converged` implies the gradient test recomputed from the wrapper's own (f, g) of the returned "
+             "evaluation; lbfgs/bfgs on random quadratics (kappa <= 1e3, scale 1e-3..1e3, n <= 16, x0 in [-10,10]^n) at epsilon 1e-8 "
+             "converge within 1500 evaluations inside the stated accuracy bound.",
+        note="That L-BFGS converges that fast is observed per run, not proved; the accuracy bound uses the closed-form minimiser."),
+    "C07": dict(
+        category="exploration", design_ref="DESIGN.md §3 C07, appendix B.7",
+        technique="TLC model checking of the transcribed control flow of three line searches (LineSearch.tla) + TLC validation of recorded searches (LineSearchTrace.tla)",
+        text="TLC checks the control flow of backtrack / lemarechal / fletcher against every sequence of predicate outcomes (success only "
+             "right after the advertised predicates were evaluated true on the current trial; non-descent refused before any trial). "
+             "Searches of the five real strategies (random (c1,c2), interpolation modes, max_iterations, smooth functions and convex "
+             "quadratics, perturbed/quasi-Newton/ascent/orthogonal directions, t0 incl. NaN/inf) are recorded through the counting wrapper "
+             "and validated: accepted point is a recorded trial at x + t d with finite positive t satisfying the advertised conditions.",
+        note="Armijo/Wolfe inequalities are recomputed by the driver with a 64-ulp slack; More-Thuente / CG_DESCENT are held to their "
+             "conditions only on convex quadratics with default settings."),
+    "C05": dict(
+        category="model_checking", design_ref="DESIGN.md §3 C05, appendix B.3",
+        technique="TLC model checking of AugLag.tla + TLC exact re-computation of penalty evaluations on the integer lattice (Penalty.tla) + solver return contract",
+        text="TLC explores every criterion/validity/closeness sequence of the augmented-Lagrangian outer loop (converged implies the held "
+             "best state is feasible within epsilon) and re-computes exactly - values and (sub)gradients of the linear, quadratic and "
+             "augmented-Lagrangian penalties, all 11 constraint kinds, feasible-point coincidence - every recorded evaluation on the "
+             "integer lattice; runs of the three constrained solvers on random QPs/LPs, boxes and balls are checked for the return "
+             "contract (feasibility within epsilon when converged, stored constraint values / KKT tests = recomputed).",
+        note="Lattice: integer points/coefficients, rho in {1,2,4,8}, integer multipliers; non-lattice points and penalties up to 1e6 are "
+             "outside what TLC can judge; feasibility at the returned point is recomputed by the driver."),
+    "C03": dict(
+        category="exploration", design_ref="DESIGN.md §3 C03, appendix B.4",
+        technique="TLC model checking of Bundle.tla / BundleSize.tla / CurveSearch.tla + TLC re-derivation of the cuts of a real bundle_t (BundleTrace.tla) + sharp-objective runs",
+        text="TLC checks on one-dimensional integer piecewise-linear objectives that every cut stays a lower bound with non-negative error "
+             "through null/serious steps and deletions, that the stopping test certifies the gap bound, that append never reaches capacity "
+             "(with the repaired guard; without it TLC finds the overflow) and the curve-search status machine. Step sequences on a real "
+             "bundle_t (cuts read through the guarded accessors) are re-derived by TLC; RQB/FPBA1/FPBA2/ellipsoid on sharp objectives: "
+             "`converged` implies the stated gap, the ellipsoid converges within 20000 evaluations for n <= 6.",
+        note="The n-dimensional real-valued certificate is observed per run (driver oracle with known minimiser), exact only in 1-D."),
+    "C04": dict(
+        category="exploration", design_ref="DESIGN.md §3 C04",
+        technique="TLC model checking of InteriorPoint.tla + exact vertex enumeration of small integer LPs in TLC (LinProg.tla) + TLC validation of KKT-constructed / planted / restated programs (ProgramTrace.tla)",
+        text="TLC checks the status protocol (converged only through done() on a feasible state with small residuals; non-strictly-feasible "
+             "start returns unfeasible) and decides exactly feasibility and optimum of random boxed integer LPs (n <= 3) against which the "
+             "solver's status/objective are compared; KKT-constructed LPs/QPs (n <= 12, rank-deficient Q, magnitudes 1e-2..1e2), planted "
+             "infeasible/unbounded programs, bad starts and equivalent restatements (row duplication/combination, rescalings, permutations) "
+             "are validated: converged implies the stated feasibility/objective/gap clauses and agreement between restatements.",
+        note="All tolerance comparisons on real data are the driver's (program as stated by the caller); TLC's exact optimum is compared "
+             "at 2e-3, the tight bound uses the driver's own __int128 vertex enumeration."),
 }
 
 NOT_YET = "machinery not finished (see DESIGN.md §7: a property is claimed only once its quick check passes and its demo mutations are caught)"
